@@ -18,7 +18,7 @@ RULE = ('flows that are random DAGs over 1-8 steps (quick cases 0..1091: every D
         '2-4 run_for/update calls; non-trivial = >=3 steps with >=1 dependency edge (or a deriver) and >=3 phases; '
         'distinct = distinct case spec')
 PLAN = {'quick': {'n': 8000, 'min_cases': 600}, 'thorough': {'n': 100000, 'min_cases': 10000}}
-REQUIRED_ORACLES = ['phase_per_batch', 'once_per_phase', 'timestep_zero', 'sees_ancestors', 'not_descendants',
+REQUIRED_ORACLES = ['phase_per_batch', 'runtime_steps_run', 'once_per_phase', 'timestep_zero', 'sees_ancestors', 'not_descendants',
                     'generation_same_view', 'derivers_first_in_order', 'sees_batch_process_updates']
 ANCHORS = ['vivarium.core.engine:_StepGraph.get_execution_layers', 'vivarium.core.engine:_StepGraph.add',
            'vivarium.core.engine:_StepGraph.add_sequential', 'vivarium.core.engine:Engine.run_steps',
@@ -64,7 +64,11 @@ def gen(r, tier, i):
         nder = r.choice([0, 0, 1, 2, 3])
     order = list(range(n))
     r.shuffle(order)
-    return {'deps': deps, 'comp': comp, 'order': order, 'nder': nder,
+    gen = None
+    if i >= len(_ENUM) * 4 and r.random() < 0.35:
+        # a compartment with 1-2 further steps (legacy derivers only, or flow steps) is generated at run time
+        gen = {'at': r.choice([0.0, 1.0, 2.0]), 'n': r.randint(1, 2), 'flow': r.choice(['none', 'none', 'chain'])}
+    return {'gen': gen, 'deps': deps, 'comp': comp, 'order': order, 'nder': nder,
             'der_in': [r.choice(['steps', 'processes']) for _ in range(nder)],
             'procs': [r.choice([0.5, 1.0, 1.5, 2.0]) for _ in range(r.randint(1, 3))],
             'calls': [[r.choice([1.0, 2.0, 2.5, 3.0]), r.choice([True, False, 'update'])] for _ in range(r.randint(1, 3))] + [[1.0, 'update']]}
@@ -99,6 +103,28 @@ def run(spec):
             rel.append(tuple(comp[j][len(comp[k]):]) + ('s%d' % j,))
         put(flow, comp[k], name, rel)
         put(topo, comp[k], name, {'log': tuple(['..'] * len(comp[k])) + ('log',)})
+    gen = spec.get('gen')
+    if gen:
+        from vivarium.core.process import Process
+
+        class Gen(Process):
+            def ports_schema(self):
+                return {'cells': {'*': {'x': {'_default': 0}}}, 'clk': {'_default': 0.0},
+                        'log': {'_default': [], '_updater': 'v_append'}}
+
+            def next_update(self, timestep, states):
+                upd = {'clk': timestep}
+                if states['clk'] == gen['at'] and 'g' not in states['cells']:
+                    names = ['g%d' % k for k in range(gen['n'])]
+                    gsteps = {nm: LedgerStep({'sid': nm}) for nm in names}
+                    gflow = {} if gen['flow'] == 'none' else {nm: ([(names[k - 1],)] if k else []) for k, nm in enumerate(names)}
+                    upd['cells'] = {'_generate': [{'key': 'g', 'processes': {}, 'steps': gsteps, 'flow': gflow,
+                                                   'topology': {nm: {'log': ('..', '..', 'log')} for nm in names},
+                                                   'initial_state': {}}]}
+                    upd['log'] = [('gen', 0, timestep, 0)]      # marks the batch that carries the _generate
+                return upd
+        processes['gen'] = Gen({'timestep': 1.0})
+        topo['gen'] = {'cells': ('cells',), 'clk': ('genclk',), 'log': ('log',)}
     for pid, ts in enumerate(spec['procs']):
         name = 'p%d' % pid
         processes[name] = Ledger({'pid': name, 'ts': {'kind': 'const', 'v': ts}})
@@ -141,10 +167,25 @@ def run(spec):
             cur.append(ev)
     batches = sum(1 for ev in m.events if ev[0] == 'emit' and ev[1] == 'history')
     nphases = 0
+    gen_names = ['g%d' % k for k in range(gen['n'])] if gen else []
+    generated = False
     for ph in phases:
         inv = [ev for ev in ph if ev[0] == 'invoke' and ev[1] == 'step']
         names = [ev[2][0] for ev in inv]
         nphases += 1
+        if gen and not generated:
+            # the batch that applied the generating update (its marker token) is followed by a phase in
+            # which the new steps already exist
+            if any(ev[0] == 'apply' and ev[1][0] == 'gen' for ev in ph):
+                generated = True
+        if generated:
+            V.check('runtime_steps_run', all(names.count(g) == 1 for g in gen_names),
+                    lambda: ('steps generated at run time must run exactly once in every later phase', names, gen_names))
+            if gen['flow'] == 'chain' and all(names.count(g) == 1 for g in gen_names):
+                idx = [names.index(g) for g in gen_names]
+                V.check('runtime_steps_run', idx == sorted(idx), lambda: ('generated flow steps ran out of dependency order', names))
+        names = [nm for nm in names if nm not in gen_names]
+        inv = [ev for ev in inv if ev[2][0] not in gen_names]
         V.check('once_per_phase', sorted(names) == sorted(all_steps),
                 lambda: ('steps run in this phase (each must run exactly once)', names, sorted(all_steps)))
         V.check('timestep_zero', all(ev[2][2] == 0 for ev in inv), lambda: ('step timestep', [ev[2][2] for ev in inv]))
